@@ -18,6 +18,64 @@ def _base_obj(lhs):
     return t if t is not None and t[0] == "obj" else None
 
 
+def read_locals_driven(ctx, pid: str, comp, cls: str) -> int:
+    """Every local signal (a `Signal(...)` object or a list of them created in elaborate) that is read somewhere in a
+    static configuration is also driven in that configuration.  An undriven local signal is constant 0: reading it is
+    either dead logic or a dropped assignment."""
+    from ..stage import BodyDef, MethodCall, Return
+
+    n = 0
+    for ex in comp.configs:
+        def is_local_signal(t):
+            o = ex.obj(t)
+            if o is None:
+                return False
+            c = o.ctor
+            if c[0] == "lc" and ex.obj(c[2]) is not None:
+                c = ex.obj(c[2]).ctor
+            return c[0] == "call" and c[1] in (("n", "Signal"), ("a", ("n", "Signal"), "like"))
+
+        written = set()
+        for h in ex.of(HwAssign):
+            if h.lhs is not None:
+                b = _base_obj(h.lhs)
+                if b is not None:
+                    written.add(b)
+        read = {}
+        def note(term, site):
+            if term is None:
+                return
+            for x in subterms(term):
+                if isinstance(x, tuple) and x and x[0] == "obj" and is_local_signal(x):
+                    read.setdefault(x, site)
+
+        for f in ex.facts:
+            for attr in ("rhs", "value", "call", "ready"):
+                v = getattr(f, attr, None)
+                if isinstance(v, tuple):
+                    note(v, f.site)
+            if isinstance(f, MethodCall):
+                for a in f.args:
+                    note(a, f.site)
+                for _, a in f.kwargs:
+                    note(a, f.site)
+            for fr in f.frames:
+                if fr[0] in ("if", "elif", "switch") and isinstance(fr[1], tuple):
+                    note(fr[1], f.site)
+            if isinstance(f, BodyDef):
+                for v in f.kwargs.values():
+                    if isinstance(v, tuple):
+                        note(v, f.site)
+        cfg = ",".join(f"{tstr(t)}={'T' if v else 'F'}" for t, v in ex.config)
+        for x, site in sorted(read.items(), key=lambda kv: kv[0][1]):
+            n += 1
+            if x not in written:
+                o = ex.obj(x)
+                ctx.bad(f"{pid}.local-signal-driven", site, f"{cls}.{o.name or tstr(x)}.driver[{cfg}]", found=f"read at {site}, never assigned in this configuration",
+                        required="a local signal that is read is driven in the same static configuration (an undriven signal is the constant 0)")
+    return n
+
+
 def register_wire_discipline(ctx, pid: str, comp, cls: str):
     by_decl: dict = {}
     for ex in comp.configs:
